@@ -187,6 +187,24 @@ return ok
                          "Schema([Rule(('x', 0), Value.equal_to(b)), Rule(('s',), Value.truthy())])", sch_beh, stubs=["cond_repr"]))
     out.append(pair_case("c14.schema.rule_dropped", ii, ipre, "Schema([Rule(('x', 0), Value.equal_to(a)), Rule(('s',), Value.falsy())])",
                          "Schema([Rule(('x', 0), Value.equal_to(b))])", sch_beh, stubs=["cond_repr"]))
+    # leaves, combinations, rules with a data-path argument: paths that print alike but differ in concreteness / modifiers /
+    # binding are different arguments (verdicts through a rule, where the argument is resolved)
+    pa_beh = "(lambda t: (t.is_valid, t.tested, t.num_failures))(Rule(('x',), OBJ).test({'x': u, 'a': u, 'b': [u]}))"
+    iu1 = [("a", "int"), ("u", "Union[int, bool, None]")]
+    pre1 = [f"BU({L}, a, u)"]
+    PA = "Value.equal_to(DataPath('a'))"
+    PB = "Value.equal_to(DataPath(MapValue('a')))"
+    for op, sym in (("and", "&"), ("or", "|"), ("xor", "^")):
+        out.append(pair_case(f"c14.patharg.concreteness.{op}", iu1, pre1, f"Value.is_instance(int) {sym} {PA}", f"Value.is_instance(int) {sym} {PB}", pa_beh))
+        out.append(pair_case(f"c14.patharg.concreteness.{op}.commuted", iu1, pre1, f"{PA} {sym} Value.is_instance(int)", f"Value.is_instance(int) {sym} {PB}", pa_beh))
+        out.append(pair_case(f"c14.patharg.concreteness.{op}.chain", iu1, pre1, f"(Value.is_instance(int) {sym} {PA}) {sym} Value.less_than(a)",
+                             f"(Value.less_than(a) {sym} {PB}) {sym} Value.is_instance(int)", pa_beh))
+        out.append(pair_case(f"c14.patharg.modifier.{op}", iu1, pre1, f"Value.is_instance(int) {sym} Value.equal_to(DataPath('b'))",
+                             f"Value.is_instance(int) {sym} Value.equal_to(DataPath('b').length())", pa_beh))
+    out.append(pair_case("c14.patharg.concreteness.leaf", iu1, pre1, PA, PB, pa_beh))
+    out.append(pair_case("c14.patharg.bound.leaf", iu1, pre1, "Value.equal_to(DataPath('a'))", "Value.equal_to(DataPath('a', source_data={'a': a}))", pa_beh))
+    out.append(pair_case("c14.patharg.bound.and", iu1, pre1, "Value.is_instance(int) & Value.equal_to(DataPath('a'))",
+                         "Value.is_instance(int) & Value.equal_to(DataPath('a', source_data={'a': a}))", pa_beh))
     # the same rules in another order (ties in path length keep the given order; with casts a later rule sees the
     # values an earlier one cast): if such schemas compare equal they must judge alike
     cast_beh = "(lambda t: (t.is_valid, t.num_failures, t.num_rules_tested, tx(t.cast_data)))(OBJ.validate({'a': '5', 'b': u, 'c': 'x'}))"
